@@ -288,21 +288,41 @@ def copyLoop (g : Cfg) : Nat → R → Bytes → Nat → R × Nat × Bool
     let (r, ok) := send g r c
     if ok then copyLoop g f r (d.drop 32768) (w + c.length) else (r, w, false)
 
+/-- ReadFrom, first paragraph: the head buffer, if it is still there (it may have been sent, moved into the
+body buffer by a Write, or freed by a Flush that failed): conn.Write(*res.buffer); Free; nil -/
+def sendHeadFirst (g : Cfg) (r : R) : R × Bool :=
+  match r.buffer with
+  | some b =>
+    let (r, ok) := send g r b
+    ({ r with buffer := none }, ok)
+  | none => (r, true)
+
+/-- ReadFrom, second paragraph: what has been written so far goes out before the reader's bytes -/
+def sendBodyFirst (g : Cfg) (r : R) : R × Bool :=
+  match r.bodyBuffer with
+  | some bb =>
+    if bb.length > 0 then
+      let (r, ok) := send g r bb
+      ({ r with bodyBuffer := some [] }, ok)
+    else (r, true)
+  | none => (r, true)
+
+/-- ReadFrom, the copy: Sendfile or io.Copy -/
+def readCopy (g : Cfg) (r : R) (k : RKind) (data : Bytes) : R × WRes :=
+  if k == .limited && data.length == 0 then (r, .ok 0) else
+  if g.sendfile && k != .plain then sendDirect g r data
+  else
+    let (r, w, ok) := copyLoop g (data.length + 1) r data 0
+    if ok then (r, .ok w) else (r, .errCopy w)
+
 /-- Response.ReadFrom; `data` = the n bytes the reader yields -/
 def readFrom (g : Cfg) (r : R) (k : RKind) (data : Bytes) : R × WRes :=
   let r := writeHeader200 r
   let r := eoncodeHead g { r with hasBody := true }
-  match r.buffer with
-  | none => (r, .panic)
-  | some b =>
-    let (r, ok) := send g r b
-    let r := { r with buffer := none }
-    if !ok then (r, .errConn) else
-    if k == .limited && data.length == 0 then (r, .ok 0) else
-    if g.sendfile && k != .plain then sendDirect g r data
-    else
-      let (r, w, ok) := copyLoop g (data.length + 1) r data 0
-      if ok then (r, .ok w) else (r, .errCopy w)
+  let p := sendHeadFirst g r
+  if !p.2 then (p.1, .errConn) else
+  let q := sendBodyFirst g p.1
+  if !q.2 then (q.1, .errConn) else readCopy g q.1 k data
 
 /-! ### Flush (http.Flusher) -/
 
